@@ -36,9 +36,18 @@ const (
 	VBytes  = "bytes" // uncomparable
 	VStruct = "struct"
 	VLong   = "long" // strings whose marshaled length sits on the length-prefix boundaries (127/128/129, 255/256, 16384)
+
+	VIface  = "iface" // comparable struct type whose interface{} field holds an uncomparable slice
+	VPtr    = "ptr"   // pointer values: equal by content, never by identity (a fresh pointer per call)
 )
 
-var ValKinds = []string{VInt, VString, VBytes, VStruct, VLong}
+var ValKinds = []string{VInt, VString, VBytes, VStruct, VLong, VIface, VPtr}
+
+// SI is a struct value whose static type is comparable but whose dynamic contents are not.
+type SI struct {
+	A string
+	X interface{}
+}
 
 // longLens are marshaled lengths (JSON string incl. quotes) of the "long" values.
 var longLens = []int{125, 126, 127, 128, 129, 130, 256, 16384}
@@ -325,6 +334,10 @@ func (c Config) ZeroVal() interface{} {
 		return []byte{}
 	case VStruct:
 		return SV{}
+	case VIface:
+		return SI{}
+	case VPtr:
+		return (*int)(nil)
 	}
 	panic("bad value kind " + c.Val)
 }
@@ -349,6 +362,13 @@ func (c Config) MakeVal(n int) interface{} {
 		tag := fmt.Sprintf("%d.", n)
 		copy(b, tag)
 		return string(b)
+	case VIface:
+		// the shape JSON gives back: []interface{} of float64 and string
+		return SI{A: fmt.Sprintf("i%d", n), X: []interface{}{float64(n), "x"}}
+	case VPtr:
+		p := new(int)
+		*p = n
+		return p
 	case VBytes:
 		return []byte{byte(n), byte(n >> 8), 'x'}
 	case VStruct:
